@@ -343,7 +343,7 @@ func tsOf(t cty.Type) *TS {
 // TypeOpts selects which features a generated universe contains.
 type TypeOpts struct {
 	Leaves   []*TS
-	Tuples   int  // max tuple width
+	Tuples   int // max tuple width
 	Attrs    []string
 	Optional bool // also every subset of attributes optional
 	MaxObj   int  // max number of attributes
